@@ -1085,6 +1085,8 @@ func (e *MetaCDC) newReplicateEntity(info *meta.TaskInfo) (*ReplicateEntity, err
 
 func (e *MetaCDC) startReplicateAPIEvent(replicateCtx context.Context, entity *ReplicateEntity) {
 	go func() {
+		// the loop serves every task of the target: a failing event pauses its own task only
+	eventLoop:
 		for {
 			select {
 			case <-replicateCtx.Done():
@@ -1102,11 +1104,11 @@ func (e *MetaCDC) startReplicateAPIEvent(replicateCtx context.Context, entity *R
 				if replicateAPIEvent.EventType == api.ReplicateError {
 					log.Warn("receive the error event", zap.Any("event", replicateAPIEvent), zap.String("task_id", taskID))
 					_ = e.pauseTaskWithReason(taskID, "fail to read the replicate event", []meta.TaskState{})
-					return
+					continue
 				}
 				if !e.isRunningTask(taskID) {
 					log.Warn("not running task", zap.Any("event", replicateAPIEvent), zap.String("task_id", taskID))
-					return
+					continue
 				}
 				if replicateAPIEvent.EventType == api.ReplicateCreateCollection {
 					writeCallback := NewWriteCallback(e.metaStoreFactory, e.rootPath, taskID)
@@ -1130,7 +1132,7 @@ func (e *MetaCDC) startReplicateAPIEvent(replicateCtx context.Context, entity *R
 								zap.String("task_id", taskID),
 								zap.Error(err))
 							_ = e.pauseTaskWithReason(taskID, "fail to update start task position, err:"+err.Error(), []meta.TaskState{})
-							return
+							continue eventLoop
 						}
 					}
 				}
@@ -1140,7 +1142,7 @@ func (e *MetaCDC) startReplicateAPIEvent(replicateCtx context.Context, entity *R
 						zap.String("task_id", taskID),
 						zap.Error(err))
 					_ = e.pauseTaskWithReason(taskID, "fail to handle the replicate event, err: "+err.Error(), []meta.TaskState{})
-					return
+					continue
 				}
 				if replicateAPIEvent.EventType == api.ReplicateDropCollection {
 					writeCallback := NewWriteCallback(e.metaStoreFactory, e.rootPath, taskID)
@@ -1153,7 +1155,7 @@ func (e *MetaCDC) startReplicateAPIEvent(replicateCtx context.Context, entity *R
 							zap.String("task_id", taskID),
 							zap.Error(err))
 						_ = e.pauseTaskWithReason(taskID, "fail to delete collection position, err:"+err.Error(), []meta.TaskState{})
-						return
+						continue
 					}
 				}
 				metrics.APIExecuteCountVec.WithLabelValues(taskID, replicateAPIEvent.EventType.String()).Inc()
